@@ -89,6 +89,22 @@ def gen_C01(w, tier):
             sc.pred = pred_agreement
             out.append(sc)
             n += 1
+    # every edge scalar, including the magic values harvested from the source text, once on each side
+    for name, ps in w.ps.items():
+        if ps.toy or ps.base:
+            continue
+        es = w.edge_scalars(ps)
+        if not big and ps.kind == "int":
+            es = es[:7] + r.sample(es[7:], min(len(es) - 7, 12))
+        for x in es:
+            for swap in (False, True):
+                y = w.scalar(ps, 0)
+                sc = exchange(w, "C01/%s/edge/%d" % (name, n), ps, r.random() < 0.3, w.password(), w.ids_for("A"),
+                              y if swap else x, x if swap else y, r.choice([0, 0, 1]), r.choice([0, 0, 1]),
+                              tags=("set:" + name, "edge-scalar"))
+                sc.pred = pred_agreement
+                out.append(sc)
+                n += 1
     # toy groups: exhaustive scalar pairs for several password classes (w = 0 included when found)
     for name, ps in w.ps.items():
         if not ps.toy or ps.base:
